@@ -16,6 +16,7 @@ pub mod c13;
 pub mod c14;
 pub mod c15;
 pub mod c16;
+pub mod c17;
 pub mod c18;
 pub mod c20;
 
@@ -37,6 +38,7 @@ pub fn run(ctx: &mut Ctx) -> bool {
         "C14" => c14::run(ctx),
         "C15" => c15::run(ctx),
         "C16" => c16::run(ctx),
+        "C17" => c17::run(ctx),
         "C18" => c18::run(ctx),
         "C20" => c20::run(ctx),
         _ => return false,
@@ -47,6 +49,7 @@ pub fn run(ctx: &mut Ctx) -> bool {
 pub fn worker(args: &[String]) -> i32 {
     match args.first().map(String::as_str) {
         Some("timeout") => c12::timeout_worker(&args[1..]),
+        Some("udp") => c17::udp_worker(&args[1..]),
         _ => 64,
     }
 }
